@@ -182,10 +182,11 @@ static std::vector<uint8_t> make_frame(const FrameSpec& f, int salt)
 static void harness_init(const char* tag)
 {
     char d[256];
-    snprintf(d, sizeof d, "/verif/build/fs-%s-%d", tag, (int)getpid());
+    const char* root = getenv("VERIF_ROOT"); if (!root || !*root) root = "/verif";
+    snprintf(d, sizeof d, "%s/build/fs-%s-%d", root, tag, (int)getpid());
     g_scratch = d;
     h_rmtree(g_scratch);
-    mkdir("/verif/build", 0755);
+    { char b[300]; snprintf(b, sizeof b, "%s/build", root); mkdir(b, 0755); }
     mkdir(d, 0755);
     g_driver = acquire_driver_init_v0(quiet_reporter);
     logger_set_reporter(quiet_reporter);
